@@ -51,24 +51,24 @@ def hypotheses_failures(x, z, Pz, torch, torchtt, tol=1e-9):
     d = len(x.N); fails = []
     nr = lambda M_: float(M_.norm())
     for j in range(1, d):
-        if nr(A[j] - A[j].T) > tol * nr(A[j]): fails.append("hypothesis: A_%d is not self-adjoint" % j)
-        if nr(B[j] - B[j].T) > tol * nr(B[j]): fails.append("hypothesis: B_%d is not self-adjoint" % j)
-        if nr(B[j] @ B[j] - B[j]) > tol * nr(B[j]): fails.append("hypothesis: B_%d is not idempotent" % j)
+        if not (nr(A[j] - A[j].T) <= tol * nr(A[j])): fails.append("hypothesis: A_%d is not self-adjoint" % j)
+        if not (nr(B[j] - B[j].T) <= tol * nr(B[j])): fails.append("hypothesis: B_%d is not self-adjoint" % j)
+        if not (nr(B[j] @ B[j] - B[j]) <= tol * nr(B[j])): fails.append("hypothesis: B_%d is not idempotent" % j)
         for k in range(1, d):
-            if nr(A[j] @ A[k] - A[max(j, k)]) > tol * nr(A[max(j, k)]): fails.append("hypothesis: A_%d A_%d != A_%d (nesting)" % (j, k, max(j, k)))
-            if j <= k and nr(A[j] @ B[k] - B[k] @ A[j]) > tol * nr(A[j]) * nr(B[k]): fails.append("hypothesis: A_%d does not commute with B_%d" % (j, k))
+            if not (nr(A[j] @ A[k] - A[max(j, k)]) <= tol * nr(A[max(j, k)])): fails.append("hypothesis: A_%d A_%d != A_%d (nesting)" % (j, k, max(j, k)))
+            if j <= k and not (nr(A[j] @ B[k] - B[k] @ A[j]) <= tol * nr(A[j]) * nr(B[k])): fails.append("hypothesis: A_%d does not commute with B_%d" % (j, k))
     def vec(t):                                   # entries in the order (m_1 n_1)(m_2 n_2)... of the cores
         f = t.full()
         if t.is_ttm: f = f.permute([i for k in range(d) for i in (k, d + k)])
         return f.reshape(-1)
     xv = vec(x); zv = vec(z)
     for j in range(1, d):
-        if float((A[j] @ xv - xv).norm()) > tol * float(xv.norm()): fails.append("hypothesis: A_%d x != x" % j)
-        if float((B[j] @ xv - xv).norm()) > tol * float(xv.norm()): fails.append("hypothesis: B_%d x != x" % j)
+        if not (float((A[j] @ xv - xv).norm()) <= tol * float(xv.norm())): fails.append("hypothesis: A_%d x != x" % j)
+        if not (float((B[j] @ xv - xv).norm()) <= tol * float(xv.norm())): fails.append("hypothesis: B_%d x != x" % j)
     form = A[d - 1] @ zv
     for k in range(1, d):
         form = form + (A[k - 1] - A[k]) @ (B[k] @ zv)
-    if float((vec(Pz) - form).norm()) > tol * max(float(zv.norm()), 1e-300):
+    if not (float((vec(Pz) - form).norm()) <= tol * max(float(zv.norm()), 1e-300)):
         fails.append("bridge: riemannian_projection(x, z) differs from sum_k (A_{k-1} - A_k) B_k z + A_{d-1} z built from the same gauges")
     return fails
 
@@ -118,17 +118,17 @@ def run(tier, seed, replay=None):
             if history.wf_failures(Pz) or list(Pz.N) != list(x.N): fails.append("P(z) has the wrong shape / is ill formed")
             a, b = rng.choice([2.0, -0.5, 3.0]), rng.choice([1.0, -2.0])
             lin = P(x, a * z + b * w)
-            if nrm(lin - (a * Pz + b * Pw)) > TOL * (abs(a) * nrm(z) + abs(b) * nrm(w)): fails.append("not linear")
+            if not (nrm(lin - (a * Pz + b * Pw)) <= TOL * (abs(a) * nrm(z) + abs(b) * nrm(w))): fails.append("not linear")
             PPz = P(x, Pz)
-            if nrm(PPz - Pz) > TOL * sc: fails.append("not idempotent: ||P(P z) - P z|| = %.3g ||z||" % (nrm(PPz - Pz) / sc))
-            if abs(dot(Pz, w) - dot(z, Pw)) > TOL * nrm(z) * nrm(w): fails.append("not self-adjoint: <Pz,w> - <z,Pw> = %.3g" % (dot(Pz, w) - dot(z, Pw)))
+            if not (nrm(PPz - Pz) <= TOL * sc): fails.append("not idempotent: ||P(P z) - P z|| = %.3g ||z||" % (nrm(PPz - Pz) / sc))
+            if not (abs(dot(Pz, w) - dot(z, Pw)) <= TOL * nrm(z) * nrm(w)): fails.append("not self-adjoint: <Pz,w> - <z,Pw> = %.3g" % (dot(Pz, w) - dot(z, Pw)))
             Px = P(x, x)
-            if nrm(Px - x) > TOL * nrm(x): fails.append("P(x) != x: relative difference %.3g" % (nrm(Px - x) / nrm(x)))
-            if abs(dot(z - Pz, Pw)) > TOL * nrm(z) * nrm(w): fails.append("residual z - P(z) is not orthogonal to P(w)")
+            if not (nrm(Px - x) <= TOL * nrm(x)): fails.append("P(x) != x: relative difference %.3g" % (nrm(Px - x) / nrm(x)))
+            if not (abs(dot(z - Pz, Pw)) <= TOL * nrm(z) * nrm(w)): fails.append("residual z - P(z) is not orthogonal to P(w)")
             if int(np.prod(N)) * (int(np.prod(M)) if ttm else 1) <= 600:      # the theorems' hypotheses and the formula, measured on this base point's gauges
                 fails += hypotheses_failures(x, z, Pz, torch, torchtt); n_hyp += 1
             Pz2 = P(x, z)                                           # the argument must still be usable
-            if nrm(Pz2 - Pz) > TOL * sc: fails.append("a second P(x, z) differs from the first (argument overwritten?)")
+            if not (nrm(Pz2 - Pz) <= TOL * sc): fails.append("a second P(x, z) differs from the first (argument overwritten?)")
             bad = solverkit.intact(snaps, [x, z, w])
             if bad: fails.append("operand modified: " + bad[0])
             # the base point as an object that moves: cores edited in place between two projections (the optimiser idiom x.cores[k] += step): the second
@@ -138,9 +138,9 @@ def run(tier, seed, replay=None):
                 gnp = np.random.default_rng(rng.randrange(1 << 30)); k_ = rng.randrange(d)
                 xm.cores[k_] += 0.4 * torch.tensor(gnp.standard_normal(tuple(xm.cores[k_].shape)), dtype=xm.cores[k_].dtype) * float(xm.cores[k_].abs().max())
                 Pm = P(xm, xm)
-                if nrm(Pm - xm) > TOL * nrm(xm): fails.append("P(x) != x after an in-place edit of a core of x: relative difference %.3g" % (nrm(Pm - xm) / nrm(xm)))
+                if not (nrm(Pm - xm) <= TOL * nrm(xm)): fails.append("P(x) != x after an in-place edit of a core of x: relative difference %.3g" % (nrm(Pm - xm) / nrm(xm)))
                 fresh = torchtt.TT([c.clone() for c in xm.cores])
-                if nrm(P(xm, z) - P(fresh, z)) > TOL * sc: fails.append("P(x, z) after an in-place edit of a core differs from the projection at a fresh copy of the same point")
+                if not (nrm(P(xm, z) - P(fresh, z)) <= TOL * sc): fails.append("P(x, z) after an in-place edit of a core differs from the projection at a fresh copy of the same point")
             # Riemannian gradient = projection of the dense Euclidean gradient
             fam = rng.choice(["quadratic", "linear", "quartic"])
             tgt = mk(solverkit.ranks(rng, d, 2))
@@ -156,11 +156,11 @@ def run(tier, seed, replay=None):
             f2 = (lambda y: torchtt.dot(y, tgt2)) if not ttm else (lambda y: (y * tgt2).sum())
             g2 = RG(x, f2)                                # ... and a second objective at the SAME base point object
             ref2 = P(x, tgt2)
-            if nrm(g2 - ref2) > 1e-8 * max(nrm(ref2), 1e-300) + 1e-10: fails.append("a second riemannian_gradient at the same base point object differs from P(Euclidean gradient): rel %.3g" % (nrm(g2 - ref2) / max(nrm(ref2), 1e-300)))
+            if not (nrm(g2 - ref2) <= 1e-8 * max(nrm(ref2), 1e-300) + 1e-10): fails.append("a second riemannian_gradient at the same base point object differs from P(Euclidean gradient): rel %.3g" % (nrm(g2 - ref2) / max(nrm(ref2), 1e-300)))
             bad2 = solverkit.intact(snaps, [x, z, w])
             if bad2: fails.append("operand modified by riemannian_gradient: " + bad2[0])
             ref = P(x, egrad)
-            if nrm(g - ref) > 1e-8 * max(nrm(ref), 1e-300) + 1e-10 * cw: fails.append("riemannian_gradient differs from P(Euclidean gradient) [%s]: rel %.3g" % (fam, nrm(g - ref) / max(nrm(ref), 1e-300)))
+            if not (nrm(g - ref) <= 1e-8 * max(nrm(ref), 1e-300) + 1e-10 * cw): fails.append("riemannian_gradient differs from P(Euclidean gradient) [%s]: rel %.3g" % (fam, nrm(g - ref) / max(nrm(ref), 1e-300)))
             if any(int(a_) > 2 * int(b_) for a_, b_ in zip(g.R, x.R)): fails.append("ranks of the gradient exceed twice those of x")
         except Exception as ex:
             V.fail("raises %s [%s]" % (type(ex).__name__, key), dict(desc, exc=str(ex)[:200])); continue
